@@ -45,6 +45,24 @@ MUTANTS = [
     m("C02-diag-rmatmat", "C02", "left-product@Diagonal._rmatmat", OPS, "return self.diag[None, :] * X", "return self.diag[:, None] * X"),
     m("C02-H-property", "C02", "property-delegates@LinearOperator.H", BASE, "return cola.fns.adjoint(self)", "return cola.fns.transpose(self)"),
     m("C02-silent-reversed-idiom", "C02", "", OPS, "for M in self.Ms[::-1]:\n            v = M @ v", "for M in reversed(self.Ms):\n            v = M @ v", silent=True),
+    # ---------------------------------------------------------------- C03
+    m("C03-sub-sign", "C03", "overload@LinearOperator.__sub__", BASE, "return self.__add__(-x)", "return self.__add__(x)"),
+    m("C03-rtruediv", "C03", "overload@LinearOperator.__rtruediv__", BASE, "return cola.linalg.inv(self) * x", "return self.__mul__(1 / x)"),
+    m("C03-rmatmul-order", "C03", "overload@LinearOperator.__rmatmul__", BASE, "return cola.fns.dot(X, self)", "return cola.fns.dot(self, X)"),
+    m("C03-add-zero-guard", "C03", "overload@LinearOperator.__add__", BASE, "if isinstance(other, Number) and other == 0:", "if isinstance(other, Number):"),
+    m("C03-dot-flatten-order", "C03", "rewrite-rule@dot(LinearOperator,Product)", FNS, "return Product(*((A, ) + B.Ms))", "return Product(*(B.Ms + (A, )))"),
+    m("C03-kron-flatten-order", "C03", "rewrite-rule@kron(Kronecker,LinearOperator)", FNS, "return Kronecker(*(A.Ms + (B, )))", "return Kronecker(*((B, ) + A.Ms))"),
+    m("C03-dot-identity-wrong-side", "C03", "rewrite-rule@dot(Identity,Any)", FNS, "def dot(A: Identity, B: Any):\n    return B", "def dot(A: Identity, B: Any):\n    return A"),
+    m("C03-kron-diag-order", "C03", "rewrite-rule@kron(Diagonal,Diagonal)", FNS, "diag = (A.diag[:, None] * B.diag[None, :]).reshape(-1)", "diag = (A.diag[None, :] * B.diag[:, None]).reshape(-1)"),
+    m("C03-scalar-merge", "C03", "rewrite-rule@mul(ScalarMul,Any)", FNS, "def mul(A: ScalarMul, c: Scalar):\n    return ScalarMul(A.c * c, A.shape, A.dtype, A.device)", "def mul(A: ScalarMul, c: Scalar):\n    return ScalarMul(A.c + c, A.shape, A.dtype, A.device)"),
+    m("C03-scalar-side", "C03", "rewrite-rule@mul(LinearOperator,Any):scalar-shape", FNS, "S = ScalarMul(c, (A.shape[-2], A.shape[-2]), A.dtype, A.device)", "S = ScalarMul(c, (A.shape[-1], A.shape[-1]), A.dtype, A.device)"),
+    m("C03-product-validation-dims", "C03", "shape-validation@Product.__init__", OPS, "if M1.shape[-1] != M2.shape[-2]:", "if M1.shape[-1] != M2.shape[-1]:"),
+    m("C03-sum-validation-gone", "C03", "shape-validation@Sum.__init__", OPS, "        for M in Ms:\n            if M.shape != shape:\n                raise ValueError(f\"dimension mismatch {M.shape} vs {shape}\")\n", ""),
+    m("C03-matmul-assert", "C03", "shape-validation@LinearOperator.__matmul__", BASE, "assert X.shape[0] == self.shape[-1], f\"dimension mismatch {self.shape} vs {X.shape}\"\n        if isinstance(X, LinearOperator):\n            return cola.fns.dot(self, X)",
+      "assert X.shape[0] == self.shape[-2], f\"dimension mismatch {self.shape} vs {X.shape}\"\n        if isinstance(X, LinearOperator):\n            return cola.fns.dot(self, X)"),
+    m("C03-sum-dtype", "C03", "composite-metadata@Sum.__init__:dtype", OPS, "                raise ValueError(f\"dimension mismatch {M.shape} vs {shape}\")\n        dtype = reduce(self.Ms[0].xnp.promote_types, (M.dtype for M in Ms))",
+      "                raise ValueError(f\"dimension mismatch {M.shape} vs {shape}\")\n        dtype = Ms[0].dtype"),
+    m("C03-silent-list-star", "C03", "", FNS, "return Kronecker(*[A, B])", "return Kronecker(A, B)", silent=True),
     # ---------------------------------------------------------------- C04
     m("C04-drop-precedence-lu", "C04", "unique-winner@inv(", INV, "@dispatch(precedence=-1)\ndef inv(A: LinearOperator, alg: LU):", "@dispatch\ndef inv(A: LinearOperator, alg: LU):"),
     m("C04-delete-base-case", "C04", "total@inv(", INV, "@dispatch(precedence=-1)\ndef inv(A: LinearOperator, alg: LU):", "@dispatch(precedence=-1)\ndef inv(A: Triangular, alg: LU):"),
